@@ -26,6 +26,9 @@ def run(ctx):
     ctx.rule("R-DELIVER-ARGS", "single-frame (non multi-PG) delivery on the FD stack hands listeners the frame's own fields", floor=2)
     layout.deliver_args(ctx, L)
     mpg.misc(ctx, L)
+    from rules import dm14 as _D
+    ctx.rule("R-FORWARD-NAMES", "send_pgn of the CA and the ECU pass every parameter (time limit, frame format) on to the layer below", floor=2)
+    _D.forward_names(ctx, classes=("ControllerApplication", "ElectronicControlUnit"))
     from rules import ca
     ctx.rule("R-CA-LOOPS", "the FD destination filter rejects a frame only after every CA was asked", floor=2)
     ca.ca_loops(ctx, "J1939_22")
